@@ -504,7 +504,10 @@ def wellformed(resource):
             v = o.eGet(f)
             vals = list(v) if f.many else ([v] if v is not None else [])
             if f.many and any(x is None for x in vals):
-                problems.append(('C03', f'None inside {o.eClass.name}.{f.name}'))
+                # None inside a many-valued ATTRIBUTE is written and read by xmi.py on purpose and is
+                # not counted as a C03 violation (DESIGN.md appendix D); inside a reference it is
+                if f.is_reference:
+                    problems.append(('C03', f'None inside {o.eClass.name}.{f.name}'))
                 vals = [x for x in vals if x is not None]
             if f.is_attribute:
                 t = f.eType
@@ -602,9 +605,20 @@ def script_tokens(node, intern):
 def attempt(env, target, data, priors, timeout, model=None):
     """Write `data` as document `target`, load the priors, then ask for target twice.
     -> dict(outcome, problems=[(clause, msg)], corr=None|str)"""
-    from pyecore.resources import URI
     with open(env.path(target), 'wb') as f:
         f.write(data)
+    try:
+        return _attempt(env, target, priors, timeout, model)
+    finally:
+        if target in env.files:         # the other scenarios need the intact document back
+            with open(env.path(target), 'wb') as f:
+                f.write(env.files[target])
+        else:
+            os.remove(env.path(target))
+
+
+def _attempt(env, target, priors, timeout, model):
+    from pyecore.resources import URI
     rs = new_rset(env)
     res = {'outcome': None, 'problems': [], 'corr': None, 'setup_failed': False, 'nested': 0}
     try:
@@ -655,7 +669,7 @@ def attempt(env, target, data, priors, timeout, model=None):
         dumps_after = [dump_resource(r, tab) for r in loaded_before]
         if dumps_after != dumps_before:
             probs.append(('prior-resource-changed', 'objects of a previously loaded resource changed: '
-                          + _first_dump_diff(dumps_before, dumps_after)))
+                          + _first_dump_diff(dumps_before, dumps_after), _diff_qualifier(dumps_before, dumps_after)))
     else:
         r = val1
         if rs.resources.get(norm) is not r:
@@ -688,6 +702,25 @@ def attempt(env, target, data, priors, timeout, model=None):
         except Hang:
             probs.append(('hang', 'reading the loaded model hangs'))
     return res
+
+
+OPPOSITE_ENDS = {'kids', 'parent', 'friends', 'friendOf', 'mate', 'mateOf'}
+
+
+def _diff_qualifier(a, b):
+    """'opposite-end-only' when the only features that differ are ends of bidirectional references
+    (a link made, or stolen, by the objects of the resource that was then discarded)."""
+    names = set()
+    for x, y in zip(a, b):
+        if len(x) != len(y):
+            return 'other'
+        for p, q in zip(x, y):
+            if p == q:
+                continue
+            if p[0] != q[0] or p[2:] != q[2:]:
+                return 'other'
+            names |= {fp[0] for fp, fq in zip(p[1], q[1]) if fp != fq}
+    return 'opposite-end-only' if names and names <= OPPOSITE_ENDS else 'other'
 
 
 def _count(n):
@@ -778,8 +811,26 @@ def compare_with_model(rs, model, res):
 
 # ----------------------------------------------------------------------------
 
-def sig(clause, fmt, corruption):
-    return {'property': PID, 'clause': clause, 'format': fmt, 'corruption': corruption}
+# corruption kinds that can take away the object a reference denotes
+MISSING_TARGET = {'break-ref', 'break-href', 'remove-element', 'remove-id', 'rename-feature', 'dup-id'}
+
+
+def sig(clause, fmt, corruption, qualifier=None):
+    """{property, clause, format, corruption kind}.  Two clauses name a root cause that does not depend
+    on the particular token that was corrupted; their corruption field is a class:
+      prior-resource-changed / opposite-end-only : 'any' (whatever makes the load fail AFTER it linked to
+                                                   an object of another resource)
+      dangling-proxy                             : 'missing-target' for every kind that removes, renames
+                                                   or re-identifies the target of a reference"""
+    base = corruption[len('nested:'):] if corruption.startswith('nested:') else corruption
+    if clause == 'prior-resource-changed' and qualifier == 'opposite-end-only':
+        corruption = 'any'
+    elif clause == 'dangling-proxy' and base in MISSING_TARGET:
+        corruption = 'missing-target'
+    s = {'property': PID, 'clause': clause, 'format': fmt, 'corruption': corruption}
+    if qualifier:
+        s['qualifier'] = qualifier
+    return s
 
 
 def b64(b):
@@ -829,12 +880,13 @@ def run(ctx, out):
         if full is not None and r['outcome'] == 'returned' and is_proper_prefix(data, full):
             r['problems'].append(('half-built', f'a document truncated after {len(data)} of {len(full)} bytes was loaded'))
         seen = set()
-        for clause, msg in r['problems']:
+        for prob in r['problems']:
+            clause, msg = prob[0], prob[1]
             if clause in seen:
                 continue
             seen.add(clause)
             case = case or make_case(env, target, data, priors, kind, what, info)
-            out.fail(sig(clause, env.fmt, kind), f'{what}: {msg}', case)
+            out.fail(sig(clause, env.fmt, kind, prob[2] if len(prob) > 2 else None), f'{what}: {msg}', case)
         if r['corr']:
             case = case or make_case(env, target, data, priors, kind, what, info)
             out.diff(f'registry machine vs impl ({env.fmt}, {kind}, {what}): {r["corr"]}', case)
@@ -889,7 +941,7 @@ def run(ctx, out):
                     if len(stats['samples']) < 5 and r['outcome'] and ci % 17 == 3:
                         stats['samples'].append({'format': fmt, 'corruption': kind, 'what': what, 'target': target,
                                                  'priors': priors, 'outcome': r['outcome'],
-                                                 'problems': [c for c, _ in r['problems']]})
+                                                 'problems': [p[0] for p in r['problems']]})
                 if time.time() > budget:
                     cut = True
             # corrupted ext next to an intact main (the failure is in a NESTED load)
@@ -954,8 +1006,8 @@ def replay(ctx, rep):
             r['problems'].append(('half-built', 'a strictly truncated document was loaded'))
     print(f'corruption: {case["corruption"]} ({case["what"]}); target {case["target"]}; priors {case["priors"]}')
     print(f'get_resource: {r["outcome"]}')
-    for c, m in r['problems']:
-        print(f'  {c}: {m}')
-    bad = any(c == clause for c, _ in r['problems']) if clause else bool(r['problems'])
+    for p in r['problems']:
+        print(f'  {p[0]}: {p[1]}')
+    bad = any(p[0] == clause for p in r['problems']) if clause else bool(r['problems'])
     print('REPRODUCED' if bad else 'not reproduced', f'(clause {clause})')
     return 1 if bad else 0
